@@ -68,6 +68,17 @@ def hashIsEmpty {P} : List (Nat × List P) → Bool
   | [] => true
   | (_, arr) :: rest => if arr.length > 0 then false else hashIsEmpty rest
 
+/-- `fillHashByKind`, arm `reflect.Struct` (a struct held by value, added by fix C10-04):
+`for _, factory := range GoStructRegistry.Registry { if factory.hasShadowStruct &&
+factory.TypeCache == p.Type() { return fillHashHelper(p.Interface(), …) } }; return SexpNull`.
+The value returned on a hit (`onHit`) does not mention the loop variable: it is the same
+whichever registration matched. `hasShadow`/`typeCache` abstract the two fields read. -/
+def structByValueScan {R} (registry : List (String × (Bool × Nat))) (goType : Nat) (onHit miss : R) : R :=
+  match registry with
+  | [] => miss
+  | (_, (hasShadow, typeCache)) :: rest =>
+    if hasShadow && typeCache == goType then onHit else structByValueScan rest goType onHit miss
+
 /-! ### the type-registry scan of `fillHashHelper` / `CallGoMethodFunction` (after fix 01) -/
 
 /-- What the scan needs of a `*RegisteredType`: the Go type its factory produces and its
